@@ -21,6 +21,9 @@ CONSTS = "src/core/constants.py"
 CLI_DIR = "src/cli/linters"
 LINTERS = "src/linters"
 FINGERPRINTS = [
+    ("src/linters/method_property/linter.py", ["_is_test_file", "_check_python"]),
+    ("src/linters/magic_numbers/context_analyzer.py", ["is_test_file", "is_acceptable_context"]),
+    ("src/linters/stringly_typed/ignore_utils.py", ["is_ignored"]),
     (LD, ["detect_language", "_detect_from_shebang", "_read_first_line", "_parse_shebang_language"]),
     (BASE, ["MultiLanguageLintRule"]),
     (PYRULE, ["PythonOnlyLintRule"]),
@@ -661,6 +664,115 @@ def registry_rule_ids():
     return defn("registry_rule_ids", "list (string * string)", "[" + ";\n  ".join(f"({coq_string(p)}, {coq_string(r)})" for p, r in _registry()) + "]")
 
 
+# ------------------------------------------------------------------ name-based exemptions (test files)
+def _name_expr_dnf(e: ast.expr, subjects) -> list[list[tuple[str, str]]]:
+    """boolean expression over the file NAME -> disjunctive normal form of (kind, needle) atoms"""
+    if isinstance(e, ast.BoolOp) and isinstance(e.op, ast.Or):
+        out = []
+        for v in e.values:
+            out.extend(_name_expr_dnf(v, subjects))
+        return out
+    if isinstance(e, ast.BoolOp) and isinstance(e.op, ast.And):
+        acc = [[]]
+        for v in e.values:
+            acc = [a + b for a in acc for b in _name_expr_dnf(v, subjects)]
+        return acc
+    if isinstance(e, ast.Call) and isinstance(e.func, ast.Attribute) and _u(e.func.value) in subjects and len(e.args) == 1 and not e.keywords:
+        if e.func.attr == "startswith":
+            return [[("NStarts", const_value(e.args[0]))]]
+        if e.func.attr == "endswith":
+            return [[("NEnds", const_value(e.args[0]))]]
+    if isinstance(e, ast.Compare) and len(e.ops) == 1:
+        if isinstance(e.ops[0], ast.In) and _u(e.comparators[0]) in subjects:
+            return [[("NContains", const_value(e.left))]]
+        if isinstance(e.ops[0], ast.Eq) and _u(e.left) in subjects:
+            return [[("NEq", const_value(e.comparators[0]))]]
+    raise Unsupported(f"unrecognised file-name predicate {_u(e)[:70]}")
+
+
+def _name_pred_of(fn: ast.FunctionDef, subjects, prelude) -> list[list[tuple[str, str]]]:
+    """`[prelude...] (if <expr>: return True)* return False|<expr>` -> DNF"""
+    dnf = []
+    body = _body(fn)
+    for i, st in enumerate(body):
+        t = _u(st)
+        if t in prelude:
+            continue
+        if isinstance(st, ast.If) and not st.orelse and len(st.body) == 1 and _u(st.body[0]) == "return True":
+            dnf.extend(_name_expr_dnf(st.test, subjects))
+            continue
+        if isinstance(st, ast.Return) and i == len(body) - 1:
+            if _u(st) != "return False":
+                dnf.extend(_name_expr_dnf(st.value, subjects))
+            return dnf
+        raise Unsupported(f"{fn.name}: unexpected statement {t[:70]}")
+    raise Unsupported(f"{fn.name}: no final return")
+
+
+def _glob_name_atoms(patterns: list[str]):
+    """`**/*SUFFIX` -> the name ends with SUFFIX ; `**/NAME` -> the name is NAME ; `**/dir/**` -> directory pattern (not a name predicate)"""
+    dnf, dirs = [], []
+    for pt in patterns:
+        if not pt.startswith("**/"):
+            raise Unsupported(f"ignore pattern {pt}")
+        rest = pt[3:]
+        if rest.endswith("/**") and not any(c in rest[:-3] for c in "*?[/"):
+            dirs.append(rest[:-3])
+        elif rest.startswith("*") and not any(c in rest[1:] for c in "*?[/"):
+            dnf.append([("NEnds", rest[1:])])
+        elif not any(c in rest for c in "*?[/"):
+            dnf.append([("NEq", rest)])
+        else:
+            raise Unsupported(f"ignore pattern {pt}")
+    return dnf, dirs
+
+
+def _name_exemptions():
+    """(rule id, languages, DNF over the file name): a file whose NAME satisfies the predicate gets no finding of that rule"""
+    out = []
+    # method-property: `if self._is_test_file(context.file_path): return []` at the top of _check_python
+    mp = find_class(parse("src/linters/method_property/linter.py"), "MethodPropertyRule")
+    mm = _methods(mp)
+    if "if self._is_test_file(context.file_path):\n    return []" not in [_u(st) for st in _body(mm["_check_python"])]:
+        raise Unsupported("MethodPropertyRule._check_python does not skip test files")
+    out.append(("method-property.should-be-property", ["python"],
+                _name_pred_of(mm["_is_test_file"], ("file_name",), ("path_str = str(file_path)", "file_name = Path(path_str).name"))))
+    # magic-numbers (Python): is_test_file(file_path) makes every context acceptable
+    ca = parse("src/linters/magic_numbers/context_analyzer.py")
+    acc = find_func(ca, "is_acceptable_context")
+    if not any(isinstance(st, ast.If) and _u(st.test) == "is_test_file(file_path) or is_constant_definition(node, parent)" and _u(st.body[0]) == "return True"
+               for st in _body(acc)):
+        raise Unsupported("is_acceptable_context does not accept test files")
+    out.append(("magic-numbers.numeric-literal", ["python"],
+                _name_pred_of(find_func(ca, "is_test_file"), ("file_path.name",), ("if not file_path:\n    return False",))))
+    # stringly-typed: DEFAULT_IGNORE_PATTERNS matched with fnmatch on the path (or as a substring)
+    iu = find_func(parse("src/linters/stringly_typed/ignore_utils.py"), "is_ignored")
+    texts = [_u(st) for st in ast.walk(iu) if isinstance(st, ast.If)]
+    if not ("if fnmatch.fnmatch(path_str, pattern):\n    return True" in texts and "if pattern in path_str:\n    return True" in texts):
+        raise Unsupported("stringly_typed is_ignored shape")
+    from translator.lib import str_elems
+    pats = str_elems(find_assign(parse("src/linters/stringly_typed/config.py"), "DEFAULT_IGNORE_PATTERNS"))
+    dnf, _dirs = _glob_name_atoms(pats)
+    st_langs = next(r["langs"] for r in _rules() if r["rid"] == "stringly-typed.repeated-validation")
+    out.append(("stringly-typed.repeated-validation", st_langs, dnf))
+    for rid, _l, dnf in out:
+        if not dnf:
+            raise Unsupported(f"{rid}: empty exemption predicate")
+        for conj in dnf:
+            for _k, n in conj:
+                if not isinstance(n, str):
+                    raise Unsupported(f"{rid}: non-string needle")
+    return out
+
+
+def name_exemptions():
+    rows = []
+    for rid, langs, dnf in _name_exemptions():
+        d = coq_list([coq_list([f"({k}, {coq_string(n)})" for k, n in conj]) for conj in dnf])
+        rows.append(f"({coq_string(rid)}, {coq_str_list(langs)}, {d})")
+    return defn("name_exemptions", "list (string * list string * list (list (nkind * string)))", "[" + ";\n  ".join(rows) + "]")
+
+
 ITEMS = [
     ("extension_map", extension_map),
     ("detect_consts", detect_consts),
@@ -668,4 +780,5 @@ ITEMS = [
     ("cli_filters", cli_filters),
     ("rule_table", rule_table),
     ("registry_rule_ids", registry_rule_ids),
+    ("name_exemptions", name_exemptions),
 ]
